@@ -384,8 +384,14 @@ class Uri(six.text_type):
 
     def __eq__(self, other):
         if not isinstance(other, Uri):
-            return NotImplemented
+            # A Uri is never equal to a plain string (or anything else) with
+            # the same text.  Returning NotImplemented here would fall back
+            # to the text comparison of the base class.
+            return False
         return super(Uri, self).__eq__(other)
+
+    def __ne__(self, other):
+        return not (self == other)
 
 
 class Bin(six.text_type):
@@ -401,8 +407,14 @@ class Bin(six.text_type):
 
     def __eq__(self, other):
         if not isinstance(other, Bin):
-            return NotImplemented
+            # A Bin is never equal to a plain string (or anything else) with
+            # the same text.  Returning NotImplemented here would fall back
+            # to the text comparison of the base class.
+            return False
         return super(Bin, self).__eq__(other)
+
+    def __ne__(self, other):
+        return not (self == other)
 
 
 class XStr(object):
